@@ -1,6 +1,18 @@
 // Unit A11 — ordering of a run: open -> (fetch) -> load x N -> commit -> close-db -> close (C04), sequential model.
 use vstd::prelude::*;
 use core::marker::PhantomData;
+// tokio::try_join!(a, b): both (already completed, see R26) results, or the first error.  anyhow!(..): an opaque error value.
+#[allow(unused_macros)]
+pub mod tokio { macro_rules! try_join_ { ($a:expr, $b:expr) => { crate::client::try_join2($a, $b) } } pub(crate) use try_join_ as try_join; }
+// anyhow::ensure!(cond, ..) / anyhow::bail!(..): early return of an error that is NOT an environment fault
+#[allow(unused_macros)]
+pub mod anyhow {
+    macro_rules! ensure_ { ($c:expr $(, $($t:tt)*)?) => { if !($c) { return Err(crate::anyhow_shim()); } } }
+    macro_rules! bail_ { ($($t:tt)*) => { return Err(crate::anyhow_shim()) } }
+    pub(crate) use ensure_ as ensure; pub(crate) use bail_ as bail;
+}
+#[allow(unused_macros)]
+macro_rules! anyhow { ($($t:tt)*) => { crate::anyhow_shim() } }
 verus! {
 
 // ---------- ghost trace of one NETCONF session ----------
@@ -10,18 +22,52 @@ pub enum Ev { Sent(Op, int) }
 // whether the server positively acknowledged the request with this ticket (decided by the server: arbitrary, fixed per run)
 pub uninterp spec fn acked_ok(ticket: int) -> bool;
 
+// env_fault(): "some step of this run failed for a reason outside the agent" (a request could not be sent, a reply was not a
+// positive acknowledgement, the target or the IRRd server could not be reached, a task panicked).  Every fallible shim
+// below states `Err ==> env_fault()`; C15 (run level) is then: run() fails only if env_fault().
+pub uninterp spec fn env_fault() -> bool;
+// final_trace(sid): the request trace of session `sid` at the moment its <close-session> request was sent (Session::close
+// consumes the session, so this is defined at most once per session); lets run()'s postcondition speak about a session
+// that no longer exists when run() returns
+pub uninterp spec fn final_trace(sid: int) -> Seq<Ev>;
 pub struct NcError;
 pub struct AnyErr;
-pub struct Session { pub trace: Ghost<Seq<Ev>> }
+impl AnyErr { #[verifier::external_body] pub fn context(self, msg: &str) -> (r: AnyErr) { unimplemented!() } }
+#[verifier::external_body]
+pub fn anyhow_shim() -> (r: AnyErr) { unimplemented!() }
+pub struct Session { pub trace: Ghost<Seq<Ev>>, pub sid: Ghost<int> }
 pub struct ReplyFut { pub ticket: Ghost<int> }
 impl ReplyFut {
     // awaiting the inner future: Ok iff the reply to this request was a positive acknowledgement (rpc-error, malformed or
     // mis-numbered reply, disconnect => Err)
     #[verifier::external_body]
-    pub fn await_(self) -> (r: Result<(), NcError>) ensures r is Ok <==> acked_ok(self.ticket@) { unimplemented!() }
+    pub fn await_(self) -> (r: Result<(), NcError>) ensures r is Ok <==> acked_ok(self.ticket@), r is Err ==> env_fault() { unimplemented!() }
+}
+// the reply future of a <get-config> request (its value: the parsed configuration, opaque here)
+pub struct DataFut<R> { pub ticket: Ghost<int>, pub _r: PhantomData<R> }
+pub struct MappedFut<R> { pub ticket: Ghost<int>, pub _r: PhantomData<R> }
+impl<R> DataFut<R> {
+    // futures::TryFutureExt::map_err: same future, error type mapped by the closure
+    #[verifier::external_body]
+    pub fn map_err<F: FnOnce(NcError) -> AnyErr>(self, f: F) -> (r: MappedFut<R>) ensures r.ticket@ == self.ticket@ { unimplemented!() }
+}
+impl<R> MappedFut<R> {
+    #[verifier::external_body]
+    pub fn await_(self) -> (r: Result<R, AnyErr>) ensures r is Ok <==> acked_ok(self.ticket@), r is Err ==> env_fault() { unimplemented!() }
 }
 pub open spec fn sent_step(t0: Seq<Ev>, t1: Seq<Ev>, op: Op, r: Result<ReplyFut, NcError>) -> bool {
-    match r { Ok(f) => t1 == t0.push(Ev::Sent(op, f.ticket@)), Err(_) => t1 == t0 }
+    &&& match r { Ok(f) => t1 == t0.push(Ev::Sent(op, f.ticket@)), Err(_) => t1 == t0 }
+    &&& r is Err ==> env_fault()
+}
+pub open spec fn ticket_of(e: Ev) -> int { match e { Ev::Sent(_, k) => k } }
+// every request on the trace was positively acknowledged
+pub open spec fn all_acked(t: Seq<Ev>) -> bool { forall|i: int| 0 <= i < t.len() ==> acked_ok(ticket_of(#[trigger] t[i])) }
+pub open spec fn closedb_sent(t: Seq<Ev>) -> bool { exists|i: int| 0 <= i < t.len() && (#[trigger] t[i]) matches Ev::Sent(Op::CloseConfiguration, _) }
+// C04, last sentence: what the session's history must look like when run() reports success
+pub open spec fn run_complete(t: Seq<Ev>) -> bool {
+    &&& all_acked(t)
+    &&& db_open(t) && commit_sent(t) && closedb_sent(t)
+    &&& t.len() > 0 && t.last() matches Ev::Sent(Op::CloseSession, _)
 }
 pub open spec fn all_loads_acked(t: Seq<Ev>) -> bool { forall|i: int| 0 <= i < t.len() ==> (#[trigger] t[i] matches Ev::Sent(Op::LoadConfiguration, k) ==> acked_ok(k)) }
 pub open spec fn db_open(t: Seq<Ev>) -> bool { exists|i: int| 0 <= i < t.len() && (#[trigger] t[i] matches Ev::Sent(Op::OpenConfiguration, k) && acked_ok(k)) }
@@ -30,9 +76,9 @@ pub open spec fn commit_sent(t: Seq<Ev>) -> bool { exists|i: int| 0 <= i < t.len
 impl Session {
     // R22: session.rpc::<Op, _>(builder closure).await  -  Ok(future) iff the request was built and sent
     #[verifier::external_body]
-    pub fn rpc_OpenConfiguration(&mut self) -> (r: Result<ReplyFut, NcError>) ensures sent_step(old(self).trace@, final(self).trace@, Op::OpenConfiguration, r) { unimplemented!() }
+    pub fn rpc_OpenConfiguration(&mut self) -> (r: Result<ReplyFut, NcError>) ensures sent_step(old(self).trace@, final(self).trace@, Op::OpenConfiguration, r), final(self).sid == old(self).sid { unimplemented!() }
     #[verifier::external_body]
-    pub fn rpc_LoadConfiguration(&mut self) -> (r: Result<ReplyFut, NcError>) ensures sent_step(old(self).trace@, final(self).trace@, Op::LoadConfiguration, r) { unimplemented!() }
+    pub fn rpc_LoadConfiguration(&mut self) -> (r: Result<ReplyFut, NcError>) ensures sent_step(old(self).trace@, final(self).trace@, Op::LoadConfiguration, r), final(self).sid == old(self).sid { unimplemented!() }
     // C04: a commit may be REQUESTED only on a session whose ephemeral database was opened and acknowledged, and only if
     // every configuration load sent on it so far was positively acknowledged
     #[verifier::external_body]
@@ -40,12 +86,22 @@ impl Session {
         requires
             db_open(old(self).trace@),                                                        // OBL:C04.commit.only_on_opened_database
             all_loads_acked(old(self).trace@),                                                // OBL:C04.commit.only_after_every_load_acknowledged
-        ensures sent_step(old(self).trace@, final(self).trace@, Op::CommitConfiguration, r)
+            all_acked(old(self).trace@),                                                      // OBL:C04.commit.only_after_every_step_acknowledged
+        ensures sent_step(old(self).trace@, final(self).trace@, Op::CommitConfiguration, r), final(self).sid == old(self).sid
     { unimplemented!() }
     #[verifier::external_body]
-    pub fn rpc_CloseConfiguration(&mut self) -> (r: Result<ReplyFut, NcError>) ensures sent_step(old(self).trace@, final(self).trace@, Op::CloseConfiguration, r) { unimplemented!() }
+    pub fn rpc_CloseConfiguration(&mut self) -> (r: Result<ReplyFut, NcError>) ensures sent_step(old(self).trace@, final(self).trace@, Op::CloseConfiguration, r), final(self).sid == old(self).sid { unimplemented!() }
     #[verifier::external_body]
-    pub fn close(self) -> (r: Result<ReplyFut, NcError>) ensures r matches Ok(f) ==> true { unimplemented!() }
+    pub fn rpc_GetConfig<R>(&mut self) -> (r: Result<DataFut<R>, NcError>)
+        ensures match r { Ok(f) => final(self).trace@ == old(self).trace@.push(Ev::Sent(Op::GetConfig, f.ticket@)), Err(_) => final(self).trace@ == old(self).trace@ },
+                r is Err ==> env_fault(), final(self).sid == old(self).sid
+    { unimplemented!() }
+    // Session::close: sends <close-session> and consumes the session
+    #[verifier::external_body]
+    pub fn close(self) -> (r: Result<ReplyFut, NcError>)
+        ensures r matches Ok(f) ==> final_trace(self.sid@) == self.trace@.push(Ev::Sent(Op::CloseSession, f.ticket@)),
+                r is Err ==> env_fault()
+    { unimplemented!() }
 }
 // anyhow::Context::context on Result, and `.await` on an already-complete Result (R3 awaitcall)
 pub trait Ctx<T> { fn context(self, msg: &str) -> (r: Result<T, AnyErr>); }
@@ -54,6 +110,15 @@ impl<T> Ctx<T> for Result<T, NcError> {
     fn context(self, msg: &str) -> (r: Result<T, AnyErr>) ensures match self { Ok(v) => r == Ok::<T, AnyErr>(v), Err(_) => r is Err } { unimplemented!() }
 }
 impl<T> Ctx<T> for Result<T, AnyErr> {
+    #[verifier::external_body]
+    fn context(self, msg: &str) -> (r: Result<T, AnyErr>) ensures match self { Ok(v) => r == Ok::<T, AnyErr>(v), Err(_) => r is Err } { unimplemented!() }
+}
+pub struct LibError; pub struct JoinError;
+impl<T> Ctx<T> for Result<T, LibError> {
+    #[verifier::external_body]
+    fn context(self, msg: &str) -> (r: Result<T, AnyErr>) ensures match self { Ok(v) => r == Ok::<T, AnyErr>(v), Err(_) => r is Err } { unimplemented!() }
+}
+impl<T> Ctx<T> for Result<T, JoinError> {
     #[verifier::external_body]
     fn context(self, msg: &str) -> (r: Result<T, AnyErr>) ensures match self { Ok(v) => r == Ok::<T, AnyErr>(v), Err(_) => r is Err } { unimplemented!() }
 }
@@ -136,6 +201,30 @@ pub broadcast proof fn lemma_all_loads_acked_push(t: Seq<Ev>, e: Ev)
         assert forall|i: int| 0 <= i < t2.len() implies (#[trigger] t2[i] matches Ev::Sent(Op::LoadConfiguration, k) ==> acked_ok(k)) by { if i < t.len() { assert(t2[i] == t[i]); } }
     }
 }
+pub broadcast proof fn lemma_all_acked_push(t: Seq<Ev>, e: Ev)
+    ensures #[trigger] all_acked(t.push(e)) == (all_acked(t) && acked_ok(ticket_of(e))),
+{
+    let t2 = t.push(e);
+    if all_acked(t2) {
+        assert forall|i: int| 0 <= i < t.len() implies acked_ok(ticket_of(#[trigger] t[i])) by { assert(t2[i] == t[i]); }
+        assert(t2[t.len() as int] == e);
+    }
+    if all_acked(t) && acked_ok(ticket_of(e)) {
+        assert forall|i: int| 0 <= i < t2.len() implies acked_ok(ticket_of(#[trigger] t2[i])) by { if i < t.len() { assert(t2[i] == t[i]); } }
+    }
+}
+pub broadcast proof fn lemma_closedb_sent_push(t: Seq<Ev>, e: Ev)
+    ensures #[trigger] closedb_sent(t.push(e)) == (closedb_sent(t) || e matches Ev::Sent(Op::CloseConfiguration, _)),
+{
+    let t2 = t.push(e);
+    if closedb_sent(t) { let i = choose|i: int| 0 <= i < t.len() && (#[trigger] t[i]) matches Ev::Sent(Op::CloseConfiguration, _); assert(t2[i] == t[i]); }
+    if e matches Ev::Sent(Op::CloseConfiguration, _) { assert(t2[t.len() as int] == e); }
+    if closedb_sent(t2) { let i = choose|i: int| 0 <= i < t2.len() && (#[trigger] t2[i]) matches Ev::Sent(Op::CloseConfiguration, _); if i < t.len() { assert(t2[i] == t[i]); } }
+}
+pub broadcast proof fn lemma_all_acked_empty()
+    ensures #[trigger] all_acked(Seq::<Ev>::empty()),
+{
+}
 pub broadcast proof fn lemma_loads_tracked_push(t0: Seq<Ev>, t1: Seq<Ev>, futs: Seq<ReplyFut>, f: ReplyFut)
     requires loads_tracked(t0, t1, futs),
     ensures #[trigger] loads_tracked(t0, t1.push(Ev::Sent(Op::LoadConfiguration, f.ticket@)), futs.push(f)),
@@ -161,14 +250,20 @@ pub broadcast proof fn lemma_loads_tracked_refl(t0: Seq<Ev>)
 // total lemma (no precondition): if every tracked load future was awaited with a positive acknowledgement, all loads are acknowledged
 pub proof fn lemma_all_awaited(t0: Seq<Ev>, t1: Seq<Ev>, futs: Seq<ReplyFut>)
     ensures (all_loads_acked(t0) && loads_tracked(t0, t1, futs) && (forall|j: int| 0 <= j < futs.len() ==> acked_ok((#[trigger] futs[j]).ticket@))) ==> all_loads_acked(t1),
+            (all_acked(t0) && loads_tracked(t0, t1, futs) && (forall|j: int| 0 <= j < futs.len() ==> acked_ok((#[trigger] futs[j]).ticket@))) ==> all_acked(t1),
 {
+    if all_acked(t0) && loads_tracked(t0, t1, futs) && (forall|j: int| 0 <= j < futs.len() ==> acked_ok((#[trigger] futs[j]).ticket@)) {
+        assert forall|i: int| 0 <= i < t1.len() implies acked_ok(ticket_of(#[trigger] t1[i])) by {
+            if i < t0.len() { assert(t1[i] == t1.subrange(0, t0.len() as int)[i]); }
+        }
+    }
     if all_loads_acked(t0) && loads_tracked(t0, t1, futs) && (forall|j: int| 0 <= j < futs.len() ==> acked_ok((#[trigger] futs[j]).ticket@)) {
         assert forall|i: int| 0 <= i < t1.len() implies (#[trigger] t1[i] matches Ev::Sent(Op::LoadConfiguration, k) ==> acked_ok(k)) by {
             if i < t0.len() { assert(t1[i] == t1.subrange(0, t0.len() as int)[i]); }
         }
     }
 }
-pub broadcast group trace_lemmas { lemma_db_open_push, lemma_commit_sent_push, lemma_commit_acked_push, lemma_all_loads_acked_push, lemma_loads_tracked_push, lemma_loads_tracked_refl }
+pub broadcast group trace_lemmas { lemma_db_open_push, lemma_commit_sent_push, lemma_commit_acked_push, lemma_all_loads_acked_push, lemma_loads_tracked_push, lemma_loads_tracked_refl, lemma_all_acked_push, lemma_closedb_sent_push, lemma_all_acked_empty }
 
 pub mod client {
 use super::*;
@@ -180,10 +275,23 @@ impl Client<Closed> {
 //@contract
         ensures res matches Ok(c) ==> db_open(c.session.trace@)                                  // OBL:C04.open_db.ok_means_database_opened
                 && (all_loads_acked(self.session.trace@) ==> all_loads_acked(c.session.trace@))
-                && (!commit_sent(self.session.trace@) ==> !commit_sent(c.session.trace@)),
+                && (all_acked(self.session.trace@) ==> all_acked(c.session.trace@))              // OBL:C04.open_db.ok_means_open_acknowledged
+                && (!commit_sent(self.session.trace@) ==> !commit_sent(c.session.trace@))
+                && c.session.sid == self.session.sid,
+                res is Err ==> env_fault(),                                                       // OBL:C15.open_db.fails_only_on_environment_faults
 //@end
 }
 impl Client<Open> {
+//@extract id=client_fetch_config file=junos-agent/src/netconf/mod.rs impl=/impl<T: Target> Client<T, Open>/ fn=fetch_config rules=R1,R2,R3,R17,R22 awaitcall=1
+//@sig pub fn fetch_config<R>(&mut self) -> (res: Result<MappedFut<R>, AnyErr>)
+//@contract
+        ensures
+            // a <get-config> is the only thing requested; the returned future is the one of that request
+            match res { Ok(f) => final(self).session.trace@ == old(self).session.trace@.push(Ev::Sent(Op::GetConfig, f.ticket@)),
+                        Err(_) => final(self).session.trace@ == old(self).session.trace@ },           // OBL:C04.fetch_config.requests_one_get_config
+            final(self).session.sid == old(self).session.sid,
+            res is Err ==> env_fault(),                                                               // OBL:C15.fetch_config.fails_only_on_environment_faults
+//@end
 //@extract id=client_load_config file=junos-agent/src/netconf/mod.rs impl=/impl<T: Target> Client<T, Open>/ fn=load_config rules=R1,R2,R3,R12,R17,R22 awaitcall=1 intoiter=.into_iter_()
 //@sig pub fn load_config(&mut self, config: Updates) -> (res: Result<&mut Self, AnyErr>)
 //@contract
@@ -191,16 +299,20 @@ impl Client<Open> {
         ensures
             // all load replies are awaited - and checked - before load_config reports success
             res matches Ok(c) ==> all_loads_acked(c.session.trace@),                          // OBL:C04.load_config.ok_means_every_load_acknowledged
+            res matches Ok(c) ==> (all_acked(old(self).session.trace@) ==> all_acked(c.session.trace@)),   // OBL:C04.load_config.ok_keeps_every_step_acknowledged
             res matches Ok(c) ==> (db_open(old(self).session.trace@) ==> db_open(c.session.trace@)),
             res matches Ok(c) ==> (!commit_sent(old(self).session.trace@) ==> !commit_sent(c.session.trace@)),   // OBL:C04.load_config.requests_no_commit
-            res matches Ok(c) ==> *final(c) == *final(self),
+            res matches Ok(c) ==> *final(c) == *final(self) && c.session.sid == old(self).session.sid,
+            res is Err ==> final(self).session.sid == old(self).session.sid,
             // on failure: still no commit has been requested by load_config
             res is Err ==> (!commit_sent(old(self).session.trace@) ==> !commit_sent(final(self).session.trace@)),   // OBL:C04.load_config.failure_requests_no_commit
+            res is Err ==> env_fault(),                                                       // OBL:C15.load_config.fails_only_on_environment_faults
 //@loop 1
                 invariant
                     loads_tracked(old(self).session.trace@, self.session.trace@, updates@),  // OBL:C04.load_config.every_sent_load_is_tracked
                     db_open(old(self).session.trace@) ==> db_open(self.session.trace@),
                     !commit_sent(old(self).session.trace@) ==> !commit_sent(self.session.trace@),
+                    self.session.sid == old(self).session.sid,
                 decreases it__0.left@,
 //@loop 2 optional
             invariant
@@ -208,6 +320,7 @@ impl Client<Open> {
                 loads_tracked(old(self).session.trace@, trace_after_send, futs_sent), all_loads_acked(old(self).session.trace@),
                 db_open(old(self).session.trace@) ==> db_open(self.session.trace@),
                 !commit_sent(old(self).session.trace@) ==> !commit_sent(self.session.trace@),
+                self.session.sid == old(self).session.sid,
                 forall|j: int| 0 <= j < it__1.pos@ ==> acked_ok((#[trigger] it__1.items@[j]).ticket@),   // OBL:C04.load_config.awaited_loads_acknowledged
             ensures it__1.pos@ == it__1.items@.len(),
             decreases it__1.items@.len() - it__1.pos@,
@@ -220,49 +333,126 @@ impl Client<Open> {
 //@extract id=client_commit_config file=junos-agent/src/netconf/mod.rs impl=/impl<T: Target> Client<T, Open>/ fn=commit_config rules=R1,R2,R3,R17,R22 awaitcall=1
 //@sig pub fn commit_config(&mut self) -> (res: Result<(), AnyErr>)
 //@contract
-        requires db_open(old(self).session.trace@), all_loads_acked(old(self).session.trace@),   // (the obligations of the commit request, passed on to the caller)
-        ensures res is Ok ==> commit_acked(final(self).session.trace@),                         // OBL:C04.commit_config.ok_means_commit_acknowledged
+        requires db_open(old(self).session.trace@), all_loads_acked(old(self).session.trace@), all_acked(old(self).session.trace@),   // (the obligations of the commit request, passed on to the caller)
+        ensures res is Ok ==> commit_acked(final(self).session.trace@) && commit_sent(final(self).session.trace@),   // OBL:C04.commit_config.ok_means_commit_acknowledged
+                res is Ok ==> all_acked(final(self).session.trace@) && db_open(final(self).session.trace@),          // OBL:C04.commit_config.ok_keeps_every_step_acknowledged
+                final(self).session.sid == old(self).session.sid,
+                res is Err ==> env_fault(),                                                     // OBL:C15.commit_config.fails_only_on_environment_faults
 //@end
 
 //@extract id=client_close_db file=junos-agent/src/netconf/mod.rs impl=/impl<T: Target> Client<T, Open>/ fn=close_db rules=R1,R2,R3,R16,R17,R22 awaitcall=1
 //@sig pub fn close_db(mut self) -> (res: Result<Client<Closed>, AnyErr>)
 //@contract
         ensures res matches Ok(c) ==> (commit_acked(self.session.trace@) ==> commit_acked(c.session.trace@)),
+                res matches Ok(c) ==> (all_acked(self.session.trace@) ==> all_acked(c.session.trace@)) && closedb_sent(c.session.trace@),   // OBL:C04.close_db.ok_means_close_acknowledged
+                res matches Ok(c) ==> (db_open(self.session.trace@) ==> db_open(c.session.trace@)) && (commit_sent(self.session.trace@) ==> commit_sent(c.session.trace@)),
+                res matches Ok(c) ==> c.session.sid == self.session.sid,
+                res is Err ==> env_fault(),                                                     // OBL:C15.close_db.fails_only_on_environment_faults
 //@end
 }
 impl Client<Closed> {
 //@extract id=client_close file=junos-agent/src/netconf/mod.rs impl=/impl<T: Target> Client<T, Closed>/ fn=close rules=R1,R2,R3,R17,R22 awaitcall=1
 //@sig pub fn close(self) -> (res: Result<(), AnyErr>)
+//@contract
+        // Ok: the <close-session> was sent, it was the last request of this session, and it was acknowledged
+        ensures res is Ok ==> exists|k: int| final_trace(self.session.sid@) == self.session.trace@.push(Ev::Sent(Op::CloseSession, k)) && acked_ok(k),   // OBL:C04.close.ok_means_close_acknowledged
+                res is Err ==> env_fault(),                                                     // OBL:C15.close.fails_only_on_environment_faults
 //@end
 }
 
-// junos-agent/src/task.rs Updater::run - the part after the policies have been evaluated and compared
+// ---------- junos-agent/src/task.rs: Updater::run (whole function) and handle_task ----------
 pub struct JunosOpts;
 impl JunosOpts { #[verifier::external_body] pub fn ephemeral_db(&self) -> (r: &str) { unimplemented!() } }
-pub struct Target;
+pub struct IrrdOpts;
+impl IrrdOpts {
+    #[verifier::external_body] pub fn host(&self) -> (r: &str) { unimplemented!() }
+    #[verifier::external_body] pub fn port(&self) -> (r: u16) { unimplemented!() }
+}
+pub struct Target { pub sid: Ghost<int> }
 impl Target {
     // Target::connect: a fresh NETCONF session (nothing requested on it yet)
     #[verifier::external_body]
-    pub fn connect(self) -> (r: Result<Client<Closed>, AnyErr>) ensures r matches Ok(c) ==> c.session.trace@ == Seq::<Ev>::empty() { unimplemented!() }
+    pub fn connect(self) -> (r: Result<Client<Closed>, AnyErr>)
+        ensures r matches Ok(c) ==> c.session.trace@ == Seq::<Ev>::empty() && c.session.sid == self.sid,
+                r is Err ==> env_fault()
+    { unimplemented!() }
 }
-pub struct Updater { pub target: Target, pub junos: JunosOpts }
+// the policy sets (contents opaque here: units a4 / a10 are about them)
+pub struct Candidate; pub struct Installed; pub struct Evaluated;
+pub struct Policies<S> { pub _s: PhantomData<S> }
+impl<S> Policies<S> {
+    #[verifier::external_body] pub fn len(&self) -> (r: usize) { unimplemented!() }
+    #[verifier::external_body] pub fn default() -> (r: Self) { unimplemented!() }
+}
+pub struct RpslEvaluator;
+impl RpslEvaluator {
+    // connects to the IRRd server
+    #[verifier::external_body]
+    pub fn new(host: &str, port: u16) -> (r: Result<RpslEvaluator, LibError>) ensures r is Err ==> env_fault() { unimplemented!() }
+}
+impl Policies<Candidate> {
+    // Policies<Candidate>::evaluate (verified in unit a4): never fails as a whole - a policy whose expression cannot be
+    // evaluated is recorded as such and the others are still evaluated
+    #[verifier::external_body]
+    pub fn evaluate(self, evaluator: &mut RpslEvaluator) -> (r: Policies<Evaluated>) { unimplemented!() }
+}
+impl Policies<Evaluated> {
+    // how many of the candidates were / were not evaluated successfully: ARBITRARY numbers here, so that nothing proved
+    // about run() depends on them
+    #[verifier::external_body] pub fn succeeded(&self) -> (r: usize) { unimplemented!() }
+    #[verifier::external_body] pub fn failed(&self) -> (r: usize) { unimplemented!() }
+    // Policies<Evaluated>::compare (verified in unit a4)
+    #[verifier::external_body]
+    pub fn compare(&self, installed: &Policies<Installed>) -> (r: Updates) { unimplemented!() }
+}
+// R26: a spawned task, run to completion at the spawn point; `res` is what the task returned
+pub struct JoinHandle<T> { pub res: T }
+#[verifier::external_body]
+pub fn tokio_spawn_<T, F: FnOnce() -> T>(f: F) -> (r: JoinHandle<T>)
+    requires f.requires(()),
+    ensures f.ensures((), r.res),
+{ unimplemented!() }
+impl<T> JoinHandle<T> {
+    // awaiting the handle: the task's value, or a JoinError if the task panicked / was cancelled
+    #[verifier::external_body]
+    pub fn await_(self) -> (r: Result<T, JoinError>) ensures r matches Ok(v) ==> v == self.res, r is Err ==> env_fault() { unimplemented!() }
+}
+// tokio::try_join!(a, b) on two completed results
+pub fn try_join2<A, B>(a: Result<A, AnyErr>, b: Result<B, AnyErr>) -> (r: Result<(A, B), AnyErr>)
+    ensures match r { Ok((x, y)) => a == Ok::<A, AnyErr>(x) && b == Ok::<B, AnyErr>(y), Err(_) => a is Err || b is Err }
+{
+    match a { Ok(x) => match b { Ok(y) => Ok((x, y)), Err(e) => Err(e) }, Err(e) => Err(e) }
+}
+
+//@extract id=handle_task file=junos-agent/src/task.rs fn=handle_task rules=R1,R2,R3 awaitcall=1
+//@sig pub fn handle_task<T>(handle: JoinHandle<Result<T, AnyErr>>) -> (res: Result<T, AnyErr>)
+//@contract
+        ensures res matches Ok(v) ==> handle.res == Ok::<T, AnyErr>(v),                               // OBL:C04.handle_task.ok_only_for_a_successful_task
+                res is Err ==> (handle.res is Err || env_fault()),                                     // OBL:C15.handle_task.fails_only_if_the_task_failed
+//@end
+
+pub struct Updater { pub target: Target, pub junos: JunosOpts, pub irrd: IrrdOpts }
 impl Updater {
-//@extract id=run_open file=junos-agent/src/task.rs impl=/impl<T: Target \+ 'static> Updater<T>/ fn=run stmts=/let mut netconf_client = self/ upto=/failed to open ephemeral database"\)\?;/ rules=R2,R3,R17 awaitcall=1 post=/Ok(netconf_client)/
-//@sig pub fn run_open(self) -> (res: Result<Client<Open>, AnyErr>)
+//@extract id=updater_run file=junos-agent/src/task.rs impl=/impl<T: Target \+ 'static> Updater<T>/ fn=run rules=R1,R2,R3,R27,R26,R7,R17 awaitcall=1 r7map=result
+//@sig pub fn run(self) -> (res: Result<(), AnyErr>)
 //@contract
-        // C04: everything else of the run happens on a session whose ephemeral database was opened and acknowledged
-        ensures res matches Ok(c) ==> db_open(c.session.trace@) && all_loads_acked(c.session.trace@) && !commit_sent(c.session.trace@),   // OBL:C04.run.database_opened_first
+        ensures
+            // C04: a run reports success only if every request of its session - open, both fetches, every load, the commit
+            // and both closing steps - was sent and positively acknowledged, in a history that ends with <close-session>
+            res is Ok ==> run_complete(final_trace(self.target.sid@)),                               // OBL:C04.run.success_means_every_step_acknowledged
+            // C15: nothing but a failing step of the environment makes the run fail - in particular not the outcome of
+            // the evaluation of the candidates' filter expressions
+            res is Err ==> env_fault(),                                                               // OBL:C15.run.aborts_only_on_environment_faults
+//@closure 1
+                -> (r: Result<Policies<Evaluated>, AnyErr>)
+                ensures r is Ok ==> acked_ok(response.ticket@),                                       // OBL:C04.run.failed_candidate_fetch_fails_the_task
+                        r is Err ==> env_fault(),                                                     // OBL:C15.run.evaluation_task_fails_only_on_environment_faults
+//@closure 2
+                -> (r: Result<Policies<Installed>, AnyErr>)
+                ensures r is Ok ==> acked_ok(response.ticket@),                                       // OBL:C04.run.failed_installed_fetch_fails_the_task
+                        r is Err ==> env_fault(),                                                     // OBL:C15.run.fetch_task_fails_only_on_environment_faults
 //@end
 }
-//@extract id=run_tail file=junos-agent/src/task.rs impl=/impl<T: Target \+ 'static> Updater<T>/ fn=run stmts=/^\s*netconf_client\s*$/ upto=/^\s*Ok\(\(\)\)/ rules=R2,R3,R17 awaitcall=1
-//@sig pub fn run_tail(mut netconf_client: Client<Open>, updates: Updates) -> (res: Result<(), AnyErr>)
-//@contract
-        // the state in which run() reaches its load/commit phase (established by run_open; the fetches in between request no commit)
-        requires db_open(netconf_client.session.trace@), all_loads_acked(netconf_client.session.trace@), !commit_sent(netconf_client.session.trace@),
-        // the only obligations here are those of the commit request itself (see Session::rpc_CommitConfiguration): it is reached
-        // only through `?` after load_config reported that every load was acknowledged
-        ensures true,
-//@end
 
 } // mod client
 
